@@ -122,6 +122,9 @@ func main() {
 		panic(err)
 	}
 	fn(c)
+	if len(argMutations) > 0 {
+		c.Direct("the library edited a rule list its caller passed in", strings.Join(argMutations, "\n"))
+	}
 	cleanupScratch()
 	if err := c.W.Close(); err != nil {
 		panic(err)
